@@ -194,6 +194,33 @@ func c17One(x *ctx, c importCase) bool {
 			wantTasks = []string{"t0"}
 		}
 		lc.Main = "f0.yaml"
+	case "dir-sibling-later", "dir-sibling-earlier", "dir-member-imports-dir", "dir-siblings-both":
+		// a member of an imported directory imports a sibling (one the directory listing reaches later, or earlier),
+		// or the directory itself: every file is still taken once
+		member := func(name, imp string) string {
+			b := ""
+			if imp != "" {
+				b = "import: " + imp + "\n"
+			}
+			return b + fmt.Sprintf("tasks:\n  %[1]s:\n    command: [echo %[1]s]\npipelines:\n  p%[1]s:\n    - task: %[1]s\n      name: s\n", name)
+		}
+		impA, impB := "", ""
+		switch c.Special {
+		case "dir-sibling-later":
+			impA = "[b.yaml]"
+		case "dir-sibling-earlier":
+			impB = "[a.yaml]"
+		case "dir-member-imports-dir":
+			impA = "[.]"
+		case "dir-siblings-both":
+			impA, impB = "[b.yaml, c.yaml]", "[c.yaml]"
+		}
+		lc.Files["f0.yaml"] = "import: [sub]\ntasks:\n  t0:\n    command: echo 0\n"
+		lc.Files["sub/a.yaml"] = member("da", impA)
+		lc.Files["sub/b.yaml"] = member("db", impB)
+		lc.Files["sub/c.yaml"] = member("dc", "")
+		lc.Main = "f0.yaml"
+		wantTasks, wantPipes = []string{"t0", "da", "db", "dc"}, []string{"pda", "pdb", "pdc"}
 	case "twice", "two-spellings", "dir-and-file":
 		imp := map[string]string{"twice": "[sub/f1.yaml, sub/f1.yaml]", "two-spellings": "[sub/f1.yaml, sub/../sub/f1.yaml, ./sub/f1.yaml]", "dir-and-file": "[sub, sub/f1.yaml]"}[c.Special]
 		lc.Files["f0.yaml"] = "import: " + imp + "\ntasks:\n  t0:\n    command: echo 0\n"
@@ -267,6 +294,14 @@ func c17One(x *ctx, c importCase) bool {
 	if c.Special != "global" && strings.Join(r.pipes, ",") != strings.Join(wantPipes, ",") {
 		x.violation("wrong-closure", c.String(), fmt.Sprintf("loaded pipelines %v, reachable closure defines %v (%s)", r.pipes, wantPipes, c), c, false)
 		return true
+	}
+	if r.cfg != nil {
+		for name, t := range r.cfg.Tasks {
+			if t != nil && len(t.Commands) > 1 && strings.HasPrefix(name, "d") && strings.HasPrefix(c.Special, "dir-") {
+				x.violation("not-once", c.String(), fmt.Sprintf("task %s has commands %q, its file declares one (%s)", name, t.Commands, c), c, false)
+				return true
+			}
+		}
 	}
 	for p, n := range r.stages {
 		if n != 1 {
@@ -351,7 +386,7 @@ func unitC17(x *ctx) {
 			}
 		})
 	case "c17-special":
-		for _, s := range []string{"dir0", "dir1", "dir2", "dir-nested", "twice", "two-spellings", "dir-and-file", "dir-member-missing-import", "dir-member-unparsable", "dir-member-missing-import-2", "dir-member-dangling-symlink-free", "symlink-import", "symlink-dir-member", "symlink-global", "symlink-main"} {
+		for _, s := range []string{"dir0", "dir1", "dir2", "dir-nested", "dir-sibling-later", "dir-sibling-earlier", "dir-member-imports-dir", "dir-siblings-both", "twice", "two-spellings", "dir-and-file", "dir-member-missing-import", "dir-member-unparsable", "dir-member-missing-import-2", "dir-member-dangling-symlink-free", "symlink-import", "symlink-dir-member", "symlink-global", "symlink-main"} {
 			do(importCase{Special: s, Broken: -1, Formats: yaml3})
 		}
 		for split := 0; split < 16; split++ {
